@@ -611,15 +611,16 @@ class Subscription(BaseSubscription):
             for tagname, tags in filter_obj.tags:
                 pstr = []
                 for val in tags:
-                    if val:
-                        val = val.replace("'", "''")
-                        pstr.append(f"'{val}'")
-                if pstr:
-                    pstr = ",".join(pstr)
-                    tagname = tagname.replace("'", "''")
-                    subwhere.append(
-                        f"id IN (SELECT id FROM tags WHERE name = '{tagname}' AND value IN ({pstr})) "
-                    )
+                    val = val.replace("'", "''")
+                    pstr.append(f"'{val}'")
+                if not pstr:
+                    # query with empty list should be invalid
+                    raise ValueError("tags")
+                pstr = ",".join(pstr)
+                tagname = tagname.replace("'", "''")
+                subwhere.append(
+                    f"id IN (SELECT id FROM tags WHERE name = '{tagname}' AND value IN ({pstr})) "
+                )
         return filter_obj
 
     def build_query(self, filters):
